@@ -6,7 +6,8 @@
    correspondence run.  Statements only. *)
 From Coq Require Import NArith List.
 From BU Require Import Base.Exn Base.Bytes Gen.Consts Gen.AddrConsts Model.AddrUtils Model.AddrB58.
-From BU Require Lemmas.AddrB58.
+From BU Require Lemmas.AddrB58 Lemmas.Taproot.
+From BU Require Model.Taproot.
 Import ListNotations.
 Open Scope N_scope.
 
@@ -117,6 +118,21 @@ Theorem aptos_dec_enc : forall sha3_256 trim pub, hash_ok sha3_256 32 ->
   aptos_decode (aptos_encode sha3_256 trim pub) = Ok (sha3_256 (pub ++ aptos_suffix)).
 Proof. intros h t p [H1 H2]. exact (Lemmas.AddrB58.aptos_decode_encode h H1 H2 t p). Qed.
 Print Assumptions aptos_dec_enc.
+
+(* Taproot (BIP-341 key path): whatever the curve arithmetic returns, an output key is exactly
+   coord_len bytes (leading zero bytes of the x coordinate are kept), and only the x coordinate of
+   the input key matters *)
+Theorem taproot_fixed_width : forall sha256 sqrt_even ec_add ec_mul_base coord_len x out,
+  Taproot.tweak_x sha256 sqrt_even ec_add ec_mul_base coord_len x = Ok out ->
+  length out = coord_len /\ bytes_ok out.
+Proof. exact Lemmas.Taproot.tweak_fixed_width. Qed.
+Print Assumptions taproot_fixed_width.
+
+Theorem taproot_x_only : forall sha256 sqrt_even ec_add ec_mul_base coord_len p q xs,
+  Taproot.tweak sha256 sqrt_even ec_add ec_mul_base coord_len (p :: xs) =
+  Taproot.tweak sha256 sqrt_even ec_add ec_mul_base coord_len (q :: xs).
+Proof. exact Lemmas.Taproot.tweak_parity_independent. Qed.
+Print Assumptions taproot_x_only.
 
 (* premises are satisfiable: a constant 32/20-byte "hash" meets hash_ok *)
 Example hash_ok_inhabited : hash_ok (fun _ => repeat 7 32) 32 /\ hash_ok (fun _ => repeat 7 20) 20.
